@@ -43,6 +43,10 @@ def run(ctx, col, tier):
     col.guard(dispatch, ctx, col)
     col.guard(returns, ctx, col)
     col.guard(sholl, ctx, col)
+    from ..rules import memo
+    memo.run(ctx, col, ('swcgeom.analysis.feature_extractor', 'swcgeom.analysis.features', 'swcgeom.analysis.lmeasure', 'swcgeom.analysis.sholl', 'swcgeom.core.path'))
+    from ..rules import ignoredparam
+    ignoredparam.run(ctx, col, ('swcgeom.analysis.feature_extractor', 'swcgeom.analysis.features', 'swcgeom.analysis.lmeasure', 'swcgeom.analysis.sholl'))
     geo, res = geosinks.check_sinks(ctx, col, "R-GEO", only=lambda q: ".volume" not in q and "volumetric" not in q)
     geosinks.report(col, "R-GEO", res, repo=ctx.repo)
     col.analysed["geo_summaries"] = len(geo.memo)
